@@ -234,6 +234,7 @@ def realistic_screen_kwargs(
 
 
 DRESSED = [0]
+DRESSED_THETA_BLOCKS = [0]
 
 
 def row_table(screen):
@@ -276,12 +277,22 @@ def random_sparse_combo_theta(rng, n_samples, n_treatments, D=None, scale=None):
         D = int(rng.integers(1, 5))
     if scale is None:
         scale = float(rng.choice([1e-3, 0.1, 1.0, 3.0, 1e3]))
+    def c_(a):
+        # a posterior sample's blocks may live in any container: read-only (a memory-mapped chain file, a sample shared
+        # between workers), strided, column-major, a window into a chain-sized buffer.  Prediction is pure.
+        if os.environ.get("VF_NO_DRESS") == "1" or rng.random() >= 0.15:
+            return a
+        from . import kit
+
+        DRESSED_THETA_BLOCKS[0] += 1
+        return kit.dress(rng, a)[0]
+
     th = SparseDrugComboMCMCSample(
-        W=rng.normal(size=(n_samples, D)) * scale,
-        W0=rng.normal(size=(n_samples,)) * scale,
-        V2=rng.normal(size=(n_treatments, D)) * scale,
-        V1=rng.normal(size=(n_treatments, D)) * scale,
-        V0=rng.normal(size=(n_treatments,)) * scale,
+        W=c_(rng.normal(size=(n_samples, D)) * scale),
+        W0=c_(rng.normal(size=(n_samples,)) * scale),
+        V2=c_(rng.normal(size=(n_treatments, D)) * scale),
+        V1=c_(rng.normal(size=(n_treatments, D)) * scale),
+        V0=c_(rng.normal(size=(n_treatments,)) * scale),
         alpha=float(rng.normal() * scale),
         precision=float(np.exp(rng.normal() * 2)),
     )
